@@ -394,7 +394,13 @@ fn main() {
     let ctx = Ctx::from_args("C29");
     let long_top: u64 = ctx.tier.pick(520, 1030);
     let chain8 = ExtendedHeaderGenerator::new().next_many(8);
-    let pats = patterns();
+    let mut pats = patterns();
+    if !ctx.quick() {
+        // thorough: additionally EVERY subset of heights 1..=8 (256 stores; the 20 named ones are among them)
+        for mask in 0u32..256 {
+            pats.push((format!("set:{mask:08b}"), (1..=8u64).filter(|h| mask >> (h - 1) & 1 == 1).collect()));
+        }
+    }
 
     let build = |name: &str| -> Fixture {
         if name.starts_with("long") {
@@ -402,8 +408,11 @@ fn main() {
             let keep: BTreeSet<u64> = (1..=long_top).collect();
             build_fixture(name, &chain, &keep)
         } else {
-            let keep = &pats.iter().find(|p| p.0 == name).unwrap_or_else(|| machinery_error("C29", &format!("unknown store {name}"))).1;
-            build_fixture(name, &chain8, keep)
+            let keep: BTreeSet<u64> = match name.strip_prefix("set:").and_then(|m| u32::from_str_radix(m, 2).ok()) {
+                Some(mask) => (1..=8u64).filter(|h| mask >> (h - 1) & 1 == 1).collect(),
+                None => pats.iter().find(|p| p.0 == name).unwrap_or_else(|| machinery_error("C29", &format!("unknown store {name}"))).1.clone(),
+            };
+            build_fixture(name, &chain8, &keep)
         }
     };
 
@@ -445,7 +454,7 @@ fn main() {
         &ctx,
         rep,
         Spec {
-            rule: "stores: 20 gap patterns over heights 1..=8 {empty, full, hole at each height, 2-wide hole at 2..6, prefix 1-3, suffix 6-8, single@1/5/8} built by insert + remove_height, + one store 1..=N (N=520 quick, 1030 thorough) x requests: origin ∈ {0..10, 2^63, u64::MAX-513, -512, -511, -1, u64::MAX} (+ N-513..N+1 on the long store) x amount ∈ {0,1,2,3,8,511,512,513,2^63,u64::MAX}; hash ∈ {hash of header 1/4/8 (stored or removed), unknown 32 bytes, 0/31/33 bytes} and data None x amount ∈ {1,0,2,u64::MAX}; each request alone on a fresh handler, then all of them queued on one handler before polling; distinct = (store, request); non-trivial = valid request against a non-empty store",
+            rule: "stores: 20 gap patterns over heights 1..=8 {empty, full, hole at each height, 2-wide hole at 2..6, prefix 1-3, suffix 6-8, single@1/5/8} built by insert + remove_height (thorough: additionally all 256 subsets of 1..=8), + one store 1..=N (N=520 quick, 1030 thorough) x requests: origin ∈ {0..10, 2^63, u64::MAX-513, -512, -511, -1, u64::MAX} (+ N-513..N+1 on the long store) x amount ∈ {0,1,2,3,8,511,512,513,2^63,u64::MAX}; hash ∈ {hash of header 1/4/8 (stored or removed), unknown 32 bytes, 0/31/33 bytes} and data None x amount ∈ {1,0,2,u64::MAX}; each request alone on a fresh handler, then all of them queued on one handler before polling; distinct = (store, request); non-trivial = valid request against a non-empty store",
             assumptions: &[
                 "headers from ExtendedHeaderGenerator (random key): the property does not depend on key material; VERIF_SEED picks the unknown-hash bytes",
                 "a request with origin 0 and amount > 1, or a 32-byte hash with amount > 1, is not covered by the statement's cases: a single Invalid or the answer of the corresponding height/hash request are both admitted",
